@@ -90,6 +90,12 @@ def main():
     env2["VERIF_BUILD_DIR"] = tagdir
     env2["VERIF_EVIDENCE_DIR"] = os.path.join(tagdir, "evidence")
     env2["VERIF_REPLAYS_DIR"] = os.path.join(tagdir, "replays")
+    # own copy of the Coq tree (with its compiled files): generated files and case files of concurrent runs must not mix
+    coqcopy = os.path.join(tagdir, "coq")
+    shutil.rmtree(coqcopy, ignore_errors=True)
+    os.makedirs(tagdir, exist_ok=True)
+    subprocess.run(["cp", "-a", os.path.join(lib.VERIF, "coq"), coqcopy], check=True)
+    env2["VERIF_COQ_DIR"] = coqcopy
     res["checks"] = {}
     for c in checks:
         t0 = time.time()
